@@ -705,3 +705,137 @@ Proof.
   rewrite Ha. assert (Hg : (ptod >=? ptod) = true) by (rewrite Z.geb_leb; apply Z.leb_refl). rewrite Hg.
   unfold on_loss_detection_timeout. cbn [f_sp set_c]. rewrite Hls. cbn. auto.
 Qed.
+
+(* ---- the pacing source ---- *)
+Lemma p_whs i h f : f_pacing (snd (whs i h f)) = f_pacing f.
+Proof.
+  unfold whs. destruct (ts_disc (sp_at f i) || negb (hw_keys h)); [reflexivity|].
+  destruct (hw_stop h =? 1); [reflexivity|]. destruct (ts_ack_at (sp_at f i)); [destruct (hw_room h)|]; reflexivity.
+Qed.
+
+Lemma p_wapp now its : forall f,
+  f_pacing (wapp now its f) = f_pacing f \/ exists it, In it its /\ f_pacing (wapp now its f) = ai_pacer it.
+Proof.
+  induction its as [|it rest IH]; intros f; [now left|]. cbn [wapp]. cbv zeta.
+  set (consult := match ts_ack_at (sp_at f 2) with None => true | Some a => a >? now end).
+  set (due := match ts_ack_at (sp_at f 2) with Some a => a <=? now | None => false end).
+  assert (Hrest : forall g, f_pacing g = f_pacing f \/ f_pacing g = ai_pacer it ->
+            f_pacing (wapp now rest g) = f_pacing f \/ exists it0, In it0 (it :: rest) /\ f_pacing (wapp now rest g) = ai_pacer it0).
+  { intros g Hg. destruct (IH g) as [E|(it0 & Hin & E)].
+    - rewrite E. destruct Hg as [Hg|Hg]; [now left|]. right. exists it. split; [now left|exact Hg].
+    - right. exists it0. split; [now right|exact E]. }
+  assert (Hhere : forall g, f_pacing g = f_pacing f \/ f_pacing g = ai_pacer it ->
+            f_pacing g = f_pacing f \/ exists it0, In it0 (it :: rest) /\ f_pacing g = ai_pacer it0).
+  { intros g [Hg|Hg]; [now left|]. right. exists it. split; [now left|exact Hg]. }
+  destruct consult; cbn [andb].
+  - destruct (is_some (ai_pacer it)); [apply Hhere; now right|]. destruct (ai_stop it); [apply Hhere; now right|].
+    destruct (f_complete f && due && negb (ai_room it)); [apply Hhere; now right|].
+    destruct (f_complete f && due); (destruct (ai_empty it); [apply Hhere|apply Hrest]); now right.
+  - destruct (ai_stop it); [now left|].
+    destruct (f_complete f && due && negb (ai_room it)); [now left|].
+    destruct (f_complete f && due); (destruct (ai_empty it); [apply Hhere|apply Hrest]); now left.
+Qed.
+
+(* when the first iteration consults the pacer, the old value does not survive *)
+Lemma p_wapp_consult now it rest f : match ts_ack_at (sp_at f 2) with None => True | Some a => now < a end ->
+  exists it0, In it0 (it :: rest) /\ f_pacing (wapp now (it :: rest) f) = ai_pacer it0.
+Proof.
+  intros Hc. cbn [wapp]. cbv zeta.
+  assert (Ec : match ts_ack_at (sp_at f 2) with None => true | Some a => a >? now end = true).
+  { destruct (ts_ack_at (sp_at f 2)); [apply Z.gtb_lt; lia|reflexivity]. }
+  assert (Ed : match ts_ack_at (sp_at f 2) with Some a => a <=? now | None => false end = false).
+  { destruct (ts_ack_at (sp_at f 2)); [apply Z.leb_gt; lia|reflexivity]. }
+  rewrite Ec, Ed. cbn [andb]. rewrite !andb_false_r. cbn [andb].
+  assert (Hhere : exists it0, In it0 (it :: rest) /\ f_pacing (set_pacing (ai_pacer it) f) = ai_pacer it0) by (exists it; split; [now left|reflexivity]).
+  destruct (is_some (ai_pacer it)); [exact Hhere|]. destruct (ai_stop it); [exact Hhere|]. destruct (ai_empty it); [exact Hhere|].
+  destruct (p_wapp now rest (set_pacing (ai_pacer it) f)) as [E|(it0 & Hin & E)].
+  - exists it. split; [now left|]. rewrite E. reflexivity.
+  - exists it0. split; [now right|exact E].
+Qed.
+
+Lemma sp_whs_other i j h f : i <> j -> sp_at (snd (whs j h f)) i = sp_at f i.
+Proof.
+  intros Hij. unfold whs. destruct (ts_disc (sp_at f j) || negb (hw_keys h)); [reflexivity|].
+  destruct (hw_stop h =? 1); [reflexivity|]. destruct (ts_ack_at (sp_at f j)); [destruct (hw_room h)|]; try reflexivity.
+  cbn [snd]. unfold sp_at, upd_sp. cbn [f_sp set_sp]. now apply nth_upd_other.
+Qed.
+
+(* QuicPacketBuilderStop does not escape from _write_handshake, and 1-RTT / 0-RTT send keys exist *)
+Definition reaches_app (w : sendw) (f : full) : Prop :=
+  (f_confirmed f = true \/
+   (fst (whs 0 (sw_h0 w) f) = false /\ fst (whs 1 (sw_h1 w) (snd (whs 0 (sw_h0 w) f))) = false)) /\
+  sw_appkeys w = true.
+(* ... and the first iteration of _write_application applies pacing (no application ACK is due) *)
+Definition app_consults (now : Z) (w : sendw) (f : full) : Prop :=
+  reaches_app w f /\ sw_app w <> [] /\ match ts_ack_at (sp_at f 2) with None => True | Some a => now < a end.
+(* next_send_time returns None or now + packet_time with packet_time > 0 *)
+Definition pacer_sane (now : Z) (w : sendw) : Prop :=
+  Forall (fun it => match ai_pacer it with Some p => now < p | None => True end) (sw_app w).
+
+Lemma p_writers now w f : f_pacing (writers now w f) = f_pacing f \/
+  exists it, In it (sw_app w) /\ f_pacing (writers now w f) = ai_pacer it.
+Proof.
+  unfold writers. destruct (f_confirmed f).
+  - destruct (sw_appkeys w); [apply p_wapp|now left].
+  - pose proof (p_whs 0 (sw_h0 w) f) as P0. destruct (whs 0 (sw_h0 w) f) as [st0 f0]. cbn [snd] in P0.
+    destruct st0; [now left|].
+    pose proof (p_whs 1 (sw_h1 w) f0) as P1. destruct (whs 1 (sw_h1 w) f0) as [st1 f1]. cbn [snd] in P1.
+    destruct st1; [left; congruence|]. destruct (sw_appkeys w); [|left; congruence].
+    destruct (p_wapp now (sw_app w) f1) as [E|E]; [left; congruence|now right].
+Qed.
+
+Lemma p_writers_consult now w f : app_consults now w f ->
+  exists it, In it (sw_app w) /\ f_pacing (writers now w f) = ai_pacer it.
+Proof.
+  intros ((Hr & Hk) & Hne & Hc). unfold writers. rewrite Hk.
+  destruct (sw_app w) as [|it rest] eqn:Ea; [congruence|].
+  destruct (f_confirmed f) eqn:Ecf.
+  - now apply p_wapp_consult.
+  - destruct Hr as [Hr|[H0 H1]]; [discriminate|].
+    pose proof (sp_whs_other 2 0 (sw_h0 w) f ltac:(lia)) as S0.
+    destruct (whs 0 (sw_h0 w) f) as [st0 f0]. cbn [fst snd] in *. subst st0.
+    pose proof (sp_whs_other 2 1 (sw_h1 w) f0 ltac:(lia)) as S1.
+    destruct (whs 1 (sw_h1 w) f0) as [st1 f1]. cbn [fst snd] in *. subst st1.
+    apply p_wapp_consult. rewrite S1, S0. exact Hc.
+Qed.
+
+Lemma c_on_loss te f : f_c (on_loss_detection_timeout te f) = f_c f.
+Proof. unfold on_loss_detection_timeout. destruct (lspace (f_sp f)) as [[i lt]|]; reflexivity. Qed.
+
+Lemma timer_progress_pacing_lemma reset ptod pto3 te w f d v :
+  inv (f_c f) -> sinv f -> c_close_at (f_c f) = Some d -> is_end (c_state (f_c f)) = false ->
+  timer_src ptod d f = (v, SrcPacing) ->
+  pacer_sane v w -> (reset = true \/ app_consults v w (fire1 reset ptod v te f)) ->
+  is_end (c_state (f_c (fire2 reset ptod v pto3 te w f))) = true \/
+  match f_pacing (fire2 reset ptod v pto3 te w f) with None => True | Some p => v < p end.
+Proof.
+  intros Hi Hsi Hd He Hs Hsane Hwhy.
+  destruct (timer_src_lt _ _ _ _ _ Hs) as [[? _]|[_ Hv]]; [discriminate|].
+  unfold fire2. set (f1 := fire1 reset ptod v te f) in *.
+  assert (Hc1 : f_c f1 = set_loss_at (loss_time_of f ptod) (f_c f)).
+  { subst f1. rewrite (fire1_not_due reset ptod v te f d Hd He Hv). cbv zeta.
+    destruct (loss_time_of f ptod) as [la|]; [destruct (v >=? la)|]; try rewrite c_on_loss; reflexivity. }
+  assert (Hs1 : sinv f1) by (subst f1; unfold fire1; now repeat apply sinv_fstep).
+  assert (Hp1 : f_pacing f1 <> None -> c_has_path (f_c f1) = true) by apply Hs1.
+  cbn [fstep]. unfold fsend, send. destruct (c_has_path (f_c f1)) eqn:Ehp; cbn [negb].
+  2:{ exfalso. assert (Hpv : f_pacing f1 = Some v).
+      { subst f1. unfold fire1. rewrite !p_fstep by congruence. destruct Hsi as [Hok _].
+        destruct (timer_src_sound _ _ _ _ _ Hok Hs) as [L _]. exact L. }
+      rewrite Hpv in Hp1. specialize (Hp1 ltac:(congruence)). congruence. }
+  assert (Hst : c_state (f_c f1) = c_state (f_c f)) by (rewrite Hc1; reflexivity).
+  rewrite Hst, He. destruct (c_close_pending (f_c f1)) eqn:Ecp.
+  - left. unfold ordinary_send. rewrite Ehp, Hst, He, Ecp. cbn. reflexivity.
+  - right. unfold ordinary_send. rewrite Ehp, Hst, He, Ecp. cbn [andb negb snd].
+    set (f0 := if reset then set_pacing None f1 else f1).
+    set (fw := writers v w f0).
+    assert (Hpw : match f_pacing fw with None => True | Some p => v < p end).
+    { assert (Hin : forall it, In it (sw_app w) -> f_pacing fw = ai_pacer it -> match f_pacing fw with None => True | Some p => v < p end).
+      { intros it Hin E. rewrite E. unfold pacer_sane in Hsane. rewrite Forall_forall in Hsane. exact (Hsane it Hin). }
+      destruct Hwhy as [->|Hcons].
+      - subst fw f0. destruct (p_writers v w (set_pacing None f1)) as [E|(it & Hin' & E)]; [rewrite E; exact I|exact (Hin it Hin' E)].
+      - destruct reset.
+        + subst fw f0. destruct (p_writers v w (set_pacing None f1)) as [E|(it & Hin' & E)]; [rewrite E; exact I|exact (Hin it Hin' E)].
+        + subst fw f0. destruct (p_writers_consult v w f1 Hcons) as (it & Hin' & E). exact (Hin it Hin' E). }
+    cbn [f_pacing set_c]. destruct (sw_probe_clr w); (destruct (sw_produced w); [destruct (sw_sent_hs w && c_client (f_c f1))|]);
+      cbn [f_pacing set_c set_sp set_probe]; try rewrite p_discard_epoch; cbn [f_pacing set_c set_sp set_probe]; exact Hpw.
+Qed.
